@@ -1,2 +1,5 @@
-SPECIFICATION DummySpec
-INVARIANT DummyInv
+SPECIFICATION CaseSpec
+INVARIANT I_RoundTrip
+INVARIANT I_NormIdempotent
+INVARIANT I_DepsAreTasks
+INVARIANT I_RejectHasPath
